@@ -7,22 +7,29 @@ written in plain Python (``math`` only, no biogeme import).
 
  (pw)   piecewise_variables / piecewise_formula / piecewise_as_variable (engine) and
         piecewise_function (Python): all admissible threshold lists of length 2..4 over a
-        menu of 5 values (None only at the ends, non-zero first thresholds included) x an
-        argument grid containing every threshold -0.5/+0/+0.5 x all coefficient vectors over a
-        menu of 3 values x the ways of passing coefficients (free / fixed Beta, number,
-        value through ``betas=``, default parameters) x variable given by name / object.
- (bc)   boxcox: x menu x lambda menu straddling the switching point 1e-5 x the ways of passing
-        lambda (number, free / fixed Beta, ``betas=`` value, table column).
+        menu of 5 values (thorough: 2..5 over 6 values; None only at the ends, non-zero first
+        thresholds included; the all-None lists must be refused) x an argument grid containing
+        every threshold -0.5 / -1ulp / +0 / +1ulp / +0.5, interval midpoints and far points x
+        all coefficient vectors over a menu of 3 values x the ways of passing coefficients
+        (free / fixed Beta, number, value through ``betas=``, default parameters) x variable
+        given by name / object.
+ (bc)   boxcox: x menu (1e-3 .. 1e3) x lambda menu straddling the switching point 1e-5 (its two
+        floating-point neighbours included) and zero x the ways of passing lambda (number,
+        free / fixed Beta, ``betas=`` value, table column) x x as column / constant.
  (dist) normalpdf, lognormalpdf, uniformpdf, triangularpdf, logisticcdf,
         (log)likelihoodregression: parameter menus x argument grids containing every kink and
-        its two floating-point neighbours x ways of passing the parameters; integral over the
-        support by composite Simpson on engine-evaluated values.
- (seg)  Segmentation.segmented_beta / segmented_code / segmented_beta(): 1..2 discrete
-        variables x 2..3 categories x every reference (and None) x parameter configurations x
-        every row (all value combinations + an unmapped value); the generated code is executed
-        and must give the same values and the same parameter set.
+        its two floating-point neighbours x ways of passing the parameters (number, Numeric,
+        free / fixed Beta, ``betas=`` value, expression of a Beta, table column, defaults);
+        integral over the support by composite Simpson on engine-evaluated values.
+ (seg)  Segmentation.segmented_beta / segmented_code / segmented_beta(): 0..2 (thorough: 3)
+        discrete variables x 2..3 categories x every reference (and None) x parameter
+        configurations (value, bounds, status) x every row (all value combinations + an unmapped
+        value); the generated code is executed and must give the same values and the same
+        parameter set (names, values, bounds, status).
  (nest) NestsForNestedLogit.correlation: every subset left alone x every set partition of the
-        rest for 2..4 alternatives x nest-parameter kinds x ``parameters=`` x mu x names.
+        rest for 2..4 (thorough: 5) alternatives x two labelings x nest-parameter kinds (number,
+        free / fixed Beta, expression) x ``parameters=`` (none, all, partial) x mu x names (none,
+        in choice-set order, in another order); entries are looked up by label.
 """
 from __future__ import annotations
 
@@ -52,6 +59,10 @@ ASSUMPTIONS = [
     'allowance 16 eps max(1,x^l)/|l|',
     'Box-Cox at x = 0 returns 0 by an explicit guard in the library; the closed form is undefined there for '
     'l <= 0 and the row is counted as out of domain (observed, not compared)',
+    'an open first piecewise interval is measured from the origin (min(x, t1)), the convention shared by '
+    'piecewise_variables and piecewise_function; the documentation gives no closed form for it',
+    'the 4th Box-Cox series term (l^3 log(x)^4 / 24 <= 1e-13 relative) and the 10th digit of sqrt(2 pi) are below '
+    'the comparison tolerance: changes confined to them are not observable',
     'integrals are composite Simpson sums on engine-evaluated nodes (panels aligned with the kinks; lognormal in '
     'the variable log x); tolerance 1e-6',
     'the engine arithmetic (exp, log, pow, comparisons) is exercised, not separately modelled',
@@ -206,10 +217,6 @@ def fnum(v):
 
 
 # =========================================================================== real-code helpers
-class EngineFailure(Exception):
-    pass
-
-
 def make_db(columns: dict):
     import pandas as pd
     import biogeme.database as db
@@ -418,7 +425,7 @@ def check_pw(cfg, rec: Rec):
                     g = vals[r]
                     w = pw_where(x, th)
                     rec.case((helper, kind, form, th, coefs, x) if e != 0 else None, (x, g), outcome=f'pw:{helper}:{w}')
-                    if cfg.get('sample') and not rec.samples and w == 'interior' and e != 0:
+                    if cfg.get('sample') and not rec.samples and w == 'interior' and abs(e) > 0.1 and x == int(x):
                         rec.sample(dict(helper=helper, thresholds=th, coefficients=list(coefs), passed_as=kind, x=x,
                                         engine_value=g, closed_form=e))
                     if not close(g, e):
@@ -1169,7 +1176,7 @@ def tasks(tier, seed):
     # (nest)
     nc = nest_configs(a, tier)
     for i in range(0, len(nc), 150):
-        t.append(dict(part='nest', cfgs=[dict(c, seed=seed, sample=(i == 300 and j == 0)) for j, c in enumerate(nc[i:i + 150])]))
+        t.append(dict(part='nest', cfgs=[dict(c, seed=seed, sample=(i == 300)) for j, c in enumerate(nc[i:i + 150])]))
     return t
 
 
@@ -1179,8 +1186,20 @@ CHECKS = {'pw': check_pw, 'bc': check_bc, 'dist': check_dist, 'seg': check_seg, 
 def run_task(task):
     rec = Rec()
     f = CHECKS[task['part']]
-    for cfg in task['cfgs']:
-        f(cfg, rec)
+    for i, cfg in enumerate(task['cfgs']):
+        try:
+            f(cfg, rec)
+        except RuntimeError as e:
+            # raised inside the engine: a helper built from admissible arguments must evaluate.  The engine error
+            # is sticky (DESIGN 3.1): this worker is retired and the rest of the chunk is reported as not run.
+            rec.retire = True
+            rec.case((task['part'], 'engine-error', str(cfg)), 'RuntimeError', outcome='engine-error')
+            rec.violation(f"C17|{task['part']}|engine-RuntimeError", f'engine raised on {cfg}: {e}',
+                          dict(part=task['part'], cfg=cfg), observed=repr(e))
+            left = len(task['cfgs']) - i - 1
+            if left:
+                rec.count('capped', left)
+            break
     rec.count('evaluations_' + task['part'], rec.evals)
     for v in rec.violations:
         v['case'] = dict(v['case'], key=v['key'])  # replay re-executes the configuration and reports this clause
@@ -1189,7 +1208,10 @@ def run_task(task):
 
 def replay(case):
     rec = Rec()
-    CHECKS[case['part']](case['cfg'], rec)
+    try:
+        CHECKS[case['part']](case['cfg'], rec)
+    except RuntimeError as e:
+        rec.violation(f"C17|{case['part']}|engine-RuntimeError", f'engine raised: {e}', case, observed=repr(e))
     if case.get('key'):
         return [v for v in rec.violations if v['key'] == case['key']]
     return rec.violations
